@@ -259,6 +259,19 @@ func Check(cfg *Config) int {
 						// something already reported; only flag if nothing was reported
 						if len(r.Violations) == 0 {
 							r.Divergent = append(r.Divergent, fmt.Sprintf("witness %d: native %s %s", i, o.Result, o.Label))
+							if (o.Result == "assert-fail" || o.Result == "panic") && len(r.Confirmed) == 0 {
+								// the real code fails an assertion of the harness on inputs the solver produced, although the
+								// engine's own encoding did not predict it: the concrete failing run is reported (the encoder
+								// divergence is reported as well)
+								final := filepath.Join(replayDir, fmt.Sprintf("%s.w%d.json", r.ID, i))
+								extra := map[string]interface{}{"property": cfg.Property, "label": o.Label, "kind": "assert", "pos": "native validation of a reachability witness",
+									"native_result": o.Result + " " + o.Label, "note": "found by native replay of a solver-generated witness; the symbolic encoding did not predict this failure"}
+								writeReplay(final, r.ID, w, known, cfg.Tier, extra)
+								mu.Lock()
+								r.Confirmed = append(r.Confirmed, final)
+								violationLines = append(violationLines, fmt.Sprintf("VIOLATION property=%s replay=%s", cfg.Property, final))
+								mu.Unlock()
+							}
 						}
 					}
 				}
